@@ -275,6 +275,7 @@ Lemma test_lookup_spec st p v :
                     (snd (test_lookup st p v) = st \/
                      ts_records (snd (test_lookup st p v)) = ts_records st ++ [data])) \/
    (snd (test_lookup st p v) = st /\ (forall id, fst (test_lookup st p v) <> OOk id) /\
+    (forall d, gosum p v <> OOk d) /\
     (fst (test_lookup st p v) = OPanic -> gosum p v = OPanic))).
 Proof.
   intros [Hh Hl] Hlen Hp Hv. unfold Server.test_lookup.
@@ -285,7 +286,7 @@ Proof.
     cbn [fst snd] in *. destruct (key_inj _ _ _ _ Hp Hp' E) as [<- <-].
     exists id, d. split; [reflexivity|]. split; [exact Hg|]. split; [exact H0|]. split; [exact Hn|]. left. reflexivity.
   - destruct (gosum p v) as [data| | |] eqn:Eg; cbn [fst snd];
-      try (split; [split; assumption|]; right; split; [reflexivity|]; split; [discriminate|]; intros; congruence).
+      try (split; [split; assumption|]; right; split; [reflexivity|]; split; [discriminate|]; split; [discriminate|]; intros; congruence).
     rewrite (stored_hashes_for_record_hash_ext node_hash _ _ _ (reader_of (ts_hashes st)) (safe_reader_eq _)).
     rewrite Hh.
     assert (Hlen' : zlen (ts_records st ++ [data]) < 2 ^ 62) by (rewrite zlen_app; change (zlen [data]) with 1; lia).
@@ -434,7 +435,7 @@ Proof.
   pose proof (pow2_pos h ltac:(lia)) as Hph.
   assert (H63 : 2 ^ 62 < 2 ^ 63) by (apply pow2_lt; lia).
   assert (Hv : valid_tile (mkTile h (-1) n w)).
-  { unfold valid_tile. cbn [tH tL tN tW]. repeat split; try lia. nia. }
+  { unfold valid_tile. cbn [tH tL tN tW]. repeat split; try lia; nia. }
   unfold Server.serve_test. destruct (serve_tile_path test_ops st _ Hv) as [-> Hp].
   unfold serve_tile. rewrite Hp. cbn [tL tH tN tW]. change (-1 =? -1) with true. cbv iota.
   rewrite Z.shiftl_mul_pow2 by lia.
